@@ -986,8 +986,13 @@ func (tc *typechecker) binaryOp(expr1 ast.Expression, op ast.OperatorType, expr2
 			typ = boolType
 		} else if !isShift && t1.Untyped() && t1.Type.Kind() < t2.Type.Kind() {
 			typ = t2.Type
+		} else if isShift && t1.Untyped() && !isInteger(t1.Type.Kind()) {
+			// If the left operand of a constant shift expression is an
+			// untyped constant, the result is an integer constant.
+			typ = intType
 		}
 		ti := &typeInfo{Type: typ, Constant: c}
+
 		if t1.Untyped() || isComparison(op) {
 			ti.Properties = propertyUntyped
 		}
